@@ -5,7 +5,7 @@
 //
 // Translation units: C14.cpp (main, 1x1 and 2x2 matrices), C14_m3.cpp (3x3
 // matrices), C14_rect*.cpp (rectangular matrices), C14_m4*.cpp (4x4 matrices, builders),
-// C14_vec.cpp (vectors and dims).  Operands are written and results are read through
+// C14_vec.cpp (vectors), C14_dim.cpp (dims).  Operands are written and results are read through
 // the raw row-major storage; the constructors and accessors are checked separately
 // against that storage.  Every operator is exercised with static storage and with a
 // pointer view storage (and matrix row views where a vector is expected).
@@ -15,7 +15,7 @@ namespace c14
 {
 namespace
 {
-// the 256 matrices over {-1,0,1,2}; quick-tier triples use the 81 over {-1,0,1}
+// the 256 matrices over {-1,0,1,2}; the quick-tier matrix*vector laws use the 81 over {-1,0,1}
 std::vector<rmat<2, 2>> fam2_full() { return all_over<2, 2>({-1, 0, 1, 2}); }
 std::vector<rmat<2, 2>> fam2_small() { return all_over<2, 2>({-1, 0, 1}); }
 
@@ -59,7 +59,7 @@ void register_m2()
     });
   for (unsigned p = 0; p < 32; ++p)
     vrt::shard("m2/triples/" + std::to_string(p), [p] {
-      auto const ops = make_ops(vrt::thorough() ? fam2_full() : fam2_small());
+      auto const ops = make_ops(fam2_full()); // both tiers: the complete 256^3
       ring_triples<2>(ops, p, 32);
     });
 }
@@ -76,5 +76,6 @@ int main(int argc, char **argv)
   c14::register_rect_c();
   c14::register_rect_d();
   c14::register_vec();
+  c14::register_dim();
   return vrt::run(argc, argv);
 }
